@@ -412,6 +412,9 @@ func extUnlock(fr *frame, args []value) value {
 }
 
 func extPoolPut(fr *frame, args []value) value {
+	if fr.i.ex != nil && fr.i.ex.StoreMon != nil {
+		fr.i.ex.StoreMon.onPoolPut(args[1])
+	}
 	if fr.i.ex != nil && fr.i.ex.PoolReuse {
 		p := args[0].(*value)
 		fr.i.pools[p] = append(fr.i.pools[p], args[1])
@@ -425,6 +428,9 @@ func extPoolGet(fr *frame, args []value) value {
 		if st := fr.i.pools[p]; len(st) > 0 {
 			v := st[len(st)-1]
 			fr.i.pools[p] = st[:len(st)-1]
+			if fr.i.ex.StoreMon != nil {
+				fr.i.ex.StoreMon.onPoolGet(v)
+			}
 			return v
 		}
 	}
@@ -443,6 +449,9 @@ func extAtomicLoad(fr *frame, args []value) value {
 	p := args[0].(*value)
 	if p == nil {
 		panic(runtimeErrorString("invalid memory address or nil pointer dereference"))
+	}
+	if fr.i.ex != nil && fr.i.ex.StoreMon != nil {
+		fr.i.ex.StoreMon.onAccess(fr, p, "atomic load")
 	}
 	return *p
 }
